@@ -39,4 +39,64 @@ theorem scanIW_buffered (s : PState) (k : Nat) (lx : Lexeme) (hn : s.n = k + 1) 
 theorem unscan_run (s : PState) : unscan.run s = .ok ((), { s with n := s.n + 1 }) := by
   simp [unscan, StateT.run, modify, modifyGet, MonadStateOf.modifyGet, StateT.modifyGet, pure, Except.pure]
 
+/-! ## fresh scans (nothing pushed back) -/
+
+/-- `Parser.Scan()` with nothing pushed back: the scanner delivers the next lexeme, which enters
+the ring. -/
+theorem pscan_fresh (s : PState) (hn : s.n = 0) (ht : (scan s.r).1.tok ≠ .BOUNDPARAM) :
+    pscan.run s = .ok ((scan s.r).1, { s with r := (scan s.r).2, buf := ((scan s.r).1 :: s.buf).take 3 }) := by
+  unfold pscan pscanWith
+  simp [hn, ht, StateT.run, bind, StateT.bind, get, getThe, MonadStateOf.get, StateT.get, set, StateT.set, pure,
+    StateT.pure, Except.pure, Except.bind]
+
+/-- `ScanIgnoreWhitespace` when the next lexeme is significant. -/
+theorem scanIW_fresh (s : PState) (hn : s.n = 0) (ht : (scan s.r).1.tok ≠ .BOUNDPARAM)
+    (hw : (scan s.r).1.tok ≠ .WS) (hc : (scan s.r).1.tok ≠ .COMMENT) :
+    scanIW.run s = .ok ((scan s.r).1, { s with r := (scan s.r).2, buf := ((scan s.r).1 :: s.buf).take 3 }) := by
+  have hp := pscan_fresh s hn ht
+  unfold scanIW
+  simp only [StateT.run, bind, StateT.bind, get, getThe, MonadStateOf.get, StateT.get, Except.bind, pure, Except.pure]
+  rw [show s.n + s.r.rest.length + 2 = (s.n + s.r.rest.length + 1) + 1 from rfl]
+  unfold scanIWLoop
+  simp only [StateT.run, bind, StateT.bind, Except.bind] at hp ⊢
+  rw [hp]
+  simp [hw, hc, pure, StateT.pure, Except.pure]
+
+/-- `ScanIgnoreWhitespace` over one whitespace lexeme followed by a significant one. -/
+theorem scanIW_skip_ws (s : PState) (hn : s.n = 0) (hws : (scan s.r).1.tok = .WS)
+    (ht : (scan (scan s.r).2).1.tok ≠ .BOUNDPARAM) (hw : (scan (scan s.r).2).1.tok ≠ .WS)
+    (hc : (scan (scan s.r).2).1.tok ≠ .COMMENT) :
+    scanIW.run s = .ok ((scan (scan s.r).2).1,
+      { s with r := (scan (scan s.r).2).2, buf := ((scan (scan s.r).2).1 :: ((scan s.r).1 :: s.buf).take 3).take 3 }) := by
+  have hp1 := pscan_fresh s hn (by rw [hws]; decide)
+  have hp2 := pscan_fresh { s with r := (scan s.r).2, buf := ((scan s.r).1 :: s.buf).take 3 } hn ht
+  unfold scanIW
+  simp only [StateT.run, bind, StateT.bind, get, getThe, MonadStateOf.get, StateT.get, Except.bind, pure, Except.pure]
+  rw [show s.n + s.r.rest.length + 2 = (s.n + s.r.rest.length) + 1 + 1 from rfl]
+  unfold scanIWLoop
+  simp only [StateT.run, bind, StateT.bind, Except.bind] at hp1 hp2 ⊢
+  rw [hp1]
+  simp only [hws, true_or, ↓reduceIte]
+  unfold scanIWLoop
+  simp only [StateT.run, bind, StateT.bind, Except.bind]
+  rw [hp2]
+  simp [hw, hc, pure, StateT.pure, Except.pure]
+
+/-- One blank before a rune that is neither whitespace nor NUL scans as a WS lexeme and stops
+before that rune. -/
+theorem scan_blank (r : Cursor) (q q' : Pos) (c : Char) (t : List (Char × Pos))
+    (hr : r.rest = (' ', q) :: (c, q') :: t) (hc : isWhitespace c = false) (hce : c ≠ eofRune) :
+    (scan r).1.tok = .WS ∧ (scan r).2.rest = (c, q') :: t := by
+  unfold scan scanFrom Cursor.read
+  rw [hr]
+  simp only [show isWhitespace ' ' = true from by decide, ↓reduceIte]
+  unfold scanWhitespace Cursor.readWhile
+  simp only [spanStamped, hc, Bool.false_and, Bool.false_eq_true, ↓reduceIte]
+  refine ⟨trivial, ?_⟩
+  unfold Cursor.eatEof Cursor.peek Cursor.read
+  simp only
+  split
+  · next h => exact absurd h hce
+  · rfl
+
 end InfluxQL
